@@ -428,6 +428,13 @@ def St.remove (s : St) (ps : List Path) (sel : RemoveSel) (force : Bool) : St ×
   | none => (s, .refused)
   | some l => (l.foldl St.removeObj s, .ok)
 
+/-- a read-only regular file that is no link of the current object (e.g. a hard link whose object was
+    removed from the cache before) is replaced by a writable copy of itself -/
+def St.selfCopy (s : St) (p : Path) : St :=
+  match s.ws p with
+  | some (.file b false _ _) => (s.setWs p (some (.file b true s.clock none))).tick
+  | _ => s
+
 /-- `untrack`, first phase: re-materialise as copies the entries that are links into the cache:
     symlinks, and files recorded as hard links that still are the cache object's inode
     (`is_same_file`; a file the user put in its place is left alone); a target that is missing from the
@@ -440,10 +447,10 @@ def St.rematOne (s : St) (e : Ent) : St × Out :=
     | some (.sym _), some d => s.recheckFromCache r.path (addrOf r.path d) .copy
     | some (.file _ _ _ (some a)), some d =>
       if r.method = .hardlink ∧ a = addrOf r.path d then s.recheckFromCache r.path (addrOf r.path d) .copy
-      else (s, .ok)
+      else (s.selfCopy r.path, .ok)
     | none, some d => s.recheckFromCache r.path (addrOf r.path d) .copy
     | none, none => (s, .panic)
-    | _, _ => (s, .ok)
+    | _, _ => (s.selfCopy r.path, .ok)
   | none => (s, .ok)
 
 def St.rematerialise (s : St) (ts : List Ent) : St × Out := forEach St.rematOne s ts
